@@ -22,7 +22,7 @@ PROPERTY = {
     "explanation": "For every generated x86-32 program with one faulting instruction -- loads, stores, read-modify-write, XCHG, PUSH / "
                    "POP with a memory operand, ADD reg,[mem], MOVSD / STOSD / LODSD (register side effects), CMPXCHG, a store through "
                    "a register base -- whose operand is in an unmapped page, in a read-only page (stores) or straddles the end of the "
-                   "data page into unmapped memory, placed anywhere in a block: (1) the reference run (one instruction per block, "
+                   "data page into unmapped memory or into an adjacent page mapped read-only (stores) / write-only (loads), placed anywhere in a block: (1) the reference run (one instruction per block, "
                    "snapshot before every instruction) faults at that instruction; (2) under 4 configurations (back end in {python, "
                    "gcc}, block length in {1,2,5,50}, per-call limit) the run stops with EXCEPT_ACCESS_VIOL in the vm exception "
                    "flags, pc on the faulting instruction, and registers, flags, data page, stack and code equal to the reference "
@@ -41,15 +41,17 @@ STRADDLE = jitrun.DATA + 0xFFE          # 4 bytes: 2 in the data page, 2 in the 
 
 def fault_instr(rng):
     """-> (assembly text, kind of inaccessible memory, setup lines placed at program start)"""
-    where = rng.choice(("hole", "hole", "ro", "straddle"))
-    addr = {"hole": HOLE + 0x10 * rng.randrange(4), "ro": jitrun.RO + 0x20, "straddle": STRADDLE}[where]
+    where = rng.choice(("hole", "hole", "ro", "straddle", "straddle-ro", "straddle-wo"))
+    addr = {"hole": HOLE + 0x10 * rng.randrange(4), "ro": jitrun.RO + 0x20, "straddle": STRADDLE, "straddle-ro": STRADDLE, "straddle-wo": STRADDLE}[where]
     m = "DWORD PTR [0x%x]" % addr
     stores = ["MOV %s, EAX" % m, "ADD %s, EBX" % m, "XOR %s, 0x1234" % m, "XCHG %s, ECX" % m, "POP %s" % m, "INC %s" % m,
               "CMPXCHG %s, EDX" % m, "MOV DWORD PTR [ESI + 0x4], EAX", "STOSD", "MOVSD"]
     loads = ["MOV EAX, %s" % m, "ADD EBX, %s" % m, "PUSH %s" % m, "CMP EDX, %s" % m, "IMUL EAX, %s" % m,
              "LODSD", "MOVSD"]
-    if where == "ro":
-        ins = rng.choice(stores)
+    if where in ("ro", "straddle-ro"):
+        ins = rng.choice(stores)            # the second page is mapped read-only: only a store faults
+    elif where == "straddle-wo":
+        ins = rng.choice([x for x in loads if x != "MOVSD"])         # the second page is mapped write-only: only a load faults
     else:
         ins = rng.choice(stores + loads)
     setup = []
@@ -77,6 +79,8 @@ def make_accessible(run, where):
         vm.add_memory_page(HOLE, PAGE_READ | PAGE_WRITE, bytes((i * 3) & 0xFF for i in range(0x1000)), "late")
     elif where == "ro":
         vm.set_mem_access(jitrun.RO, PAGE_READ | PAGE_WRITE)
+    elif where in ("straddle-ro", "straddle-wo"):
+        vm.set_mem_access(jitrun.DATA + 0x1000, PAGE_READ | PAGE_WRITE)
     else:
         vm.add_memory_page(jitrun.DATA + 0x1000, PAGE_READ | PAGE_WRITE, bytes((i * 5) & 0xFF for i in range(0x1000)), "late")
 
@@ -117,18 +121,23 @@ class FaultCases(BoundedContract):
         rng, text, st, ins, where = self.gen(case)
         code, labels, instrs = jitrun.assemble(text)
         site = labels["fault_site"]
-        ref = jitrun.Run("python", code, st)
+        from miasm.jitter.csts import PAGE_READ, PAGE_WRITE
+        extra = {"straddle-ro": [(jitrun.DATA + 0x1000, PAGE_READ)], "straddle-wo": [(jitrun.DATA + 0x1000, PAGE_WRITE)]}.get(where, [])
+        ref = jitrun.Run("python", code, st, map_extra=extra)
         ref.reference_mode(snapshots=True)
         res = ref.go()
-        if ref.fault is None:
+        if site not in ref.trace:
             # the faulting instruction is never reached with this initial state: nothing to observe
             return (True, "", False)
+        if ref.fault is None:
+            return (False, "single-step run (python back end): `%s` (%s) at %#x is executed and no fault is reported (the run ends with result %r)" % (
+                ins, where, site, res), True)
         if ref.fault[0] != site or ref.trace[-1] != site:
             return (False, "reference run: the fault is reported with pc %#x, the faulting instruction is at %#x (trace ends at %#x)" % (
                 ref.fault[0], site, ref.trace[-1]), True)
         before = ref.snaps[-1]
         # the run without fault: memory accessible from the start
-        ok = jitrun.Run("python", code, st)
+        ok = jitrun.Run("python", code, st, map_extra=extra)
         make_accessible(ok, where)
         ok.reference_mode()
         if ok.go() is not False or ok.fault:
@@ -136,7 +145,7 @@ class FaultCases(BoundedContract):
         final = ok.state()
         for k in range(4):
             cfg = {"backend": rng.choice(("python", "gcc")), "maxline": rng.choice((1, 2, 5, 50)), "max_exec": rng.choice((0, 0, 1, 3))}
-            r = jitrun.Run(cfg["backend"], code, st, maxline=cfg["maxline"], max_exec=cfg["max_exec"])
+            r = jitrun.Run(cfg["backend"], code, st, maxline=cfg["maxline"], max_exec=cfg["max_exec"], map_extra=extra)
             r.limit_steps()
             try:
                 res = r.go()
